@@ -21,6 +21,7 @@ CONSTANTS
   CfModes = {"plain"}
   DevRebuildMergesAcrossState = FALSE
   DevEncCheckIgnoresStrict = FALSE
+  DevCasefoldOpaqueHashFails = FALSE
   DevDupFoldsPlainDir = FALSE
   DevInodeUninitWipes = FALSE
 CHECK_DEADLOCK FALSE
